@@ -162,6 +162,9 @@ THEOREMS = [
     'C09.parse_precedence', 'C09.parse_render_precedence',
     # set/get inverse
     'C09.set_get_inverse', 'C09.set_get_inverse_parse',
+    # … for complex values (re, im): the real factor promoted to f + 0j, complex product / quotient; neither part lost
+    'C09.set_get_inverse_complex', 'C09.set_in_units_complex_parts', 'C09.get_in_units_complex_parts',
+    'C09.set_in_units_complex_of_real', 'C09.set_in_units_complex_flat',
     # dimension homomorphism and working-unit independence
     'C09.eval_dimension_hom', 'C09.eval_dimension_hom_ast', 'C09.same_dim_ratio_invariant', 'C09.dim_analysis_sound',
     # reset_units with named working units: every chosen unit is 1
@@ -190,7 +193,10 @@ RULE = ('expression trees over {numeric literal, unit name, *, /, ^} generated t
         'the atomman default, numericalunits seeds, and named choices (every non-empty subset of the five keywords incl. the '
         'over-determined and the five-keyword one, names drawn from the generated table by dimension, every name of every '
         'kind at least once); values: float / int64 / int32 arrays, lists, tuples, mixed int-float lists, python and numpy '
-        'scalars of shapes (), (1,), (1,1), (3,), (2,2), (2,1,3), (5,) and empty arrays, dyadic, generic and integer entries; '
+        'scalars of shapes (), (1,), (1,1), (3,), (2,2), (2,1,3), (5,) and empty arrays, dyadic, generic and integer entries, '
+        'and complex values of the same shapes (python complex, lists / tuples / mixed lists, complex128 / complex64 arrays, '
+        'strided and read-only Fortran views, numpy complex scalars; purely imaginary, y = +-x, one part 2^-20..2^-45 of '
+        'the other, parts swept independently by 2^k), decided part by part; '
         'set_literal terms "[blanks]value[ unit-expression][blanks]" with value a numeral, a (nested) list / tuple literal '
         'or a python-specific spelling (leading-zero integer, +2, "1, 2", "1,", [], ragged, unbalanced); numerals with '
         'leading zeros; nesting 8-40 deep; sessions = sequences of configurations in one process: every ordered pair of a '
@@ -1225,19 +1231,21 @@ def _corr_convert(ctx, rng, uc, cfg, n):
             continue
         s = render(rng, tree, 2, messy=rng.choice([0.0, 0.5]), extra=rng.choice([0.0, 0.2]))
         shape = rng.choice([sh for sh in SHAPES if 0 not in sh])
-        form = rng.choice([f for f in FORMS if f not in ('float32-array', 'np32-scalar', 'scaled-array')])
+        form = rng.choice([f for f in FORMS if f not in ('float32-array', 'np32-scalar', 'scaled-array',
+                                                         'complex-scaled-array') and not _is_c64(f)])
+        cplx = _is_c(form)                       # complex values: (re, im) pairs on the wire, model ops setc / getc
         cnt = int(np.prod(shape)) if shape else 1
         xs = gen_values(rng, form, cnt)
         arg, arr = make_arg(np, xs, shape, form)
         for op, f in (('set', uc.set_in_units), ('get', uc.get_in_units)):
             try:
                 r = np.asarray(_timed(f, arg, s))
-                impl = r.ravel().tolist() if r.shape == arr.shape and r.dtype.kind == 'f' else 'shape'
+                impl = _parts(np, r, cplx) if r.shape == arr.shape and r.dtype.kind in ('fc' if cplx else 'f') else 'shape'
                 if impl != 'shape' and not np.isfinite(r).all():
                     impl = 'err'
             except Exception:  # noqa
                 impl = 'err'
-            lines.append(f'{op} {cnt} ' + ' '.join(cm.fr(x) for x in xs) + ' ' + _cps(s))
+            lines.append(f'{op}{"c" if cplx else ""} {len(xs)} ' + ' '.join(cm.fr(x) for x in xs) + ' ' + _cps(s))
             metas.append((op, s, xs, shape, impl, e))
     # None / 'scaled'
     for u in (None, 'scaled'):
@@ -1261,7 +1269,7 @@ def _corr_convert(ctx, rng, uc, cfg, n):
             if len(mv) != len(impl) or any(abs(Fraction(a) - b) > Fraction(_tol(b, e + 1)) for a, b in zip(impl, mv)):
                 bad = f'implementation {impl} != model {[float(x) for x in mv]}'
         if bad:
-            ctx.disagree(op + '_in_units', f'uc.{op}_in_units({xs} as shape {shape}, {s!r}) after {_cfg_str(cfg)}: {bad}',
+            ctx.disagree(op + '_in_units', f'uc.{op}_in_units({xs} as {"complex (re, im, …) of " if len(xs) > max(1, int(np.prod(shape))) else ""}shape {shape}, {s!r}) after {_cfg_str(cfg)}: {bad}',
                          {'op': op, 'cfg': cfg, 'units': s, 'value': xs, 'shape': list(shape)})
     # set_literal
     lines, metas = [], []
@@ -2201,8 +2209,33 @@ def _o_parse(ctx, uc, cfg, s, vals):
 
 FORMS = ['array', 'array', 'list', 'tuple', 'int-array', 'int32-array', 'int-list', 'mixed-list', 'np-scalar',
          'view', 'readonly', 'fortran', 'float32-array', 'scaled-array', 'scaled-array', 'np32-scalar']
+# complex values ("all scalar/array values": Stroh eigenvector components, structure factors, dynamical-matrix elements):
+# the flat value list of a complex form holds (re, im) pairs
+CFORMS = ['complex-list', 'complex-list', 'complex-array', 'complex-array', 'complex64-array', 'complex-tuple',
+          'complex-mixed-list', 'np-complex-scalar', 'np-complex64-scalar', 'complex-view', 'complex-scaled-array']
+FORMS = FORMS + CFORMS
 U32 = 2.0 ** -24
 SHAPES = [(), (), (3,), (2, 2), (2, 1, 3), (1,), (1, 1), (0,), (0, 3), (5,)]
+
+
+def _is_c(form):
+    return isinstance(form, str) and 'complex' in form
+
+
+def _is_c64(form):
+    return isinstance(form, str) and 'complex64' in form
+
+
+def _parts(np, a, cplx):
+    """flat list of the real components of an array: the entries, or for complex values re, im, re, im, ...
+    (a real-valued result for a complex argument has imaginary parts 0)."""
+    a = np.asarray(a)
+    if not cplx:
+        return a.ravel().tolist()
+    out = []
+    for z in a.astype(complex).ravel().tolist():
+        out += [z.real, z.imag]
+    return out
 
 
 def _nest(flat, shape, seq):
@@ -2216,7 +2249,34 @@ def _nest(flat, shape, seq):
 
 def make_arg(np, xs, shape, form):
     """the value as the caller holds it: float/int ndarray, (nested) list or tuple, python or numpy scalar.
-    -> (argument, reference float array)"""
+    -> (argument, reference float array); complex forms: xs = re, im, re, im, ... -> (argument, reference complex array)"""
+    if _is_c(form):
+        zs = [complex(xs[2 * i], xs[2 * i + 1]) for i in range(len(xs) // 2)]
+        ref = np.array(zs, dtype=complex).reshape(shape)
+        if form in ('complex-array', 'complex-scaled-array'):
+            return ref.copy(), ref
+        if form == 'complex64-array':
+            a = np.array(zs, dtype=np.complex64).reshape(shape)
+            return a, a.astype(complex)
+        if form == 'np-complex-scalar' and not shape:
+            return np.complex128(zs[0]), ref
+        if form == 'np-complex64-scalar' and not shape:
+            return np.complex64(zs[0]), np.asarray(np.complex64(zs[0]), dtype=complex)
+        if form == 'np-complex64-scalar':
+            a = np.array(zs, dtype=np.complex64).reshape(shape)
+            a = np.array(a, order='F', copy=True)
+            a.flags.writeable = False
+            return a, a.astype(complex)
+        if form == 'complex-view':
+            big = np.full(tuple(2 * d for d in shape) if shape else (2,), 7.25 - 1.5j)
+            v = big[tuple(slice(1, None, 2) for _ in shape)] if shape else big[1:2].reshape(())
+            v[...] = ref
+            return v, ref
+        if form == 'complex-tuple':
+            return _nest(zs, tuple(shape), tuple), ref
+        if form == 'complex-mixed-list':        # real entries given as python floats / ints among the complex ones
+            zs = [(int(z.real) if z.real == int(z.real) and abs(z.real) < 2 ** 40 else z.real) if z.imag == 0 else z for z in zs]
+        return _nest(zs, tuple(shape), list), ref          # a python complex number when the shape is ()
     ref = np.array(xs, dtype=float).reshape(shape)
     if form == 'array':
         return ref.copy(), ref
@@ -2247,7 +2307,41 @@ def make_arg(np, xs, shape, form):
     return _nest(list(xs), tuple(shape), list), ref          # list, int-list, mixed-list: the entries as given
 
 
+def _gen_complex(rng, form, cnt):
+    np = _np()
+    out = []
+    for _ in range(cnt):
+        x = rng.choice([cm.dyadic(rng, -64, 64, 4), rng.uniform(-1e3, 1e3), rng.uniform(-1, 1) * 10.0 ** rng.randint(-12, 12)])
+        y = rng.choice([cm.dyadic(rng, -64, 64, 4), rng.uniform(-1e3, 1e3), rng.uniform(-1, 1) * 10.0 ** rng.randint(-12, 12)])
+        k = rng.randrange(10)
+        if form == 'complex-scaled-array':     # magnitudes swept by exact powers of two, the two parts independently
+            x = math.ldexp(rng.choice([1.0, -1.0, 1.5, rng.uniform(1, 2)]), rng.randint(-1000, 1000))
+            y = math.ldexp(rng.choice([1.0, -1.0, 1.5, rng.uniform(1, 2)]), rng.randint(-1000, 1000))
+        elif k == 0:
+            x = 0.0                             # purely imaginary
+        elif k == 1:
+            y = x                               # on the diagonal
+        elif k == 2:
+            y = -x
+        elif k == 3:
+            y = math.ldexp(x, -rng.randint(20, 45)) or 1.0      # imaginary part far below the real one
+        elif k == 4:
+            x = math.ldexp(y, -rng.randint(20, 45))             # and the other way round
+        elif k == 5 and form == 'complex-mixed-list':
+            y = 0.0
+        elif k == 6:
+            x, y = float(rng.randint(-5, 5)), float(rng.choice([-2, -1, 1, 2, 3]))
+        if form == 'complex-mixed-list' and rng.random() < 0.35:
+            y = 0.0
+        if _is_c64(form):
+            x, y = float(np.float32(x)), float(np.float32(y))
+        out += [x, y]
+    return out
+
+
 def gen_values(rng, form, cnt):
+    if _is_c(form):
+        return _gen_complex(rng, form, cnt)
     if form.startswith('int'):
         return [rng.choice([0, 1, -1, 2, 3, 7, -12, 100, rng.randint(-1000, 1000), 2 ** 31 - 1 if form == 'int32-array' else 2 ** 40])
                 for _ in range(cnt)]
@@ -2286,8 +2380,9 @@ def _o_inverse(ctx, np, uc, cfg, s, xs, shape, form, vals=None):
     if form is True or form is False:            # replays written before the forms existed
         form = 'list' if form else 'array'
     shape = tuple(shape)
+    cplx = _is_c(form)
     arg, ref = make_arg(np, xs, shape, form)
-    ref = np.asarray(arg, dtype=float)           # (an empty nested list has shape (0,) whatever was asked for)
+    ref = np.asarray(arg, dtype=complex if cplx else float)     # (an empty nested list has shape (0,) whatever was asked for)
     keep = copy.deepcopy(arg)
     replay = {'op': 'inverse', 'cfg': cfg, 'units': s, 'value': xs, 'shape': list(shape), 'form': form}
     # the factor the ordinary grammar gives the expression
@@ -2296,7 +2391,8 @@ def _o_inverse(ctx, np, uc, cfg, s, xs, shape, form, vals=None):
     else:
         cls = classify(s, vals if vals is not None else _unit_fr(uc), 0.0)
         v, e = (cls[1], cls[2]) if cls[0] == 'val' else (None, 0.0)
-    f32 = getattr(arg, 'dtype', None) in (np.dtype('float32'), np.dtype('int32')) and form in ('float32-array', 'np32-scalar')
+    f32 = (getattr(arg, 'dtype', None) in (np.dtype('float32'), np.dtype('int32')) and form in ('float32-array', 'np32-scalar')
+           or getattr(arg, 'dtype', None) == np.dtype('complex64') and _is_c64(form))
     u = U32 if f32 else U
     lim = 120 if f32 else 1015
     style = (len(xs) + len(s or '') + (1 if xs and xs[0] > 0 else 0)) % 4       # how the call is written
@@ -2318,7 +2414,7 @@ def _o_inverse(ctx, np, uc, cfg, s, xs, shape, form, vals=None):
         ctx.violate('inverse:shape', f'set_in_units/get_in_units({s!r}) change the shape {ref.shape} -> '
                     f'{wa.shape} -> {back.shape} ({form})', replay)
         return
-    if wa.dtype.kind not in 'fiu' or back.dtype.kind not in 'fiu':
+    if wa.dtype.kind not in ('fiuc' if cplx else 'fiu') or back.dtype.kind not in ('fiuc' if cplx else 'fiu'):
         ctx.violate('inverse', f'set_in_units/get_in_units({s!r}) of {xs} ({form}) return dtype {wa.dtype} / {back.dtype}',
                     replay)
         return
@@ -2327,15 +2423,27 @@ def _o_inverse(ctx, np, uc, cfg, s, xs, shape, form, vals=None):
         ctx.violate('inverse:aliasing', f'set_in_units / get_in_units({s!r}) return an array that shares memory with the '
                     f'argument or with each other ({form}, shape {ref.shape})', replay)
         return
+    # complex values: numpy promotes the real factor to f + 0j, so the product and the quotient act on the real and
+    # the imaginary part separately (a*f - b*0 = a*f, a*0 + b*f = b*f; Smith's quotient with ratio 0/f = 0): the clause
+    # is decided part by part, each part like a real value
+    refp = _parts(np, ref, cplx)
     inside = [v is None and abs(x) < 2.0 ** 100 and not f32 or v is not None and _wide_ok(Fraction(x) * v, lim)
-              and _wide_ok(Fraction(x), lim) and _wide_ok(v, lim) for x in ref.ravel().tolist()]
-    bad = [(x, b) for x, b, ok in zip(ref.ravel().tolist(), back.ravel().tolist(), inside)
+              and _wide_ok(Fraction(x), lim) and _wide_ok(v, lim) for x in refp]
+    if cplx:                                     # both parts of a value inside, or the value is left out
+        inside = [inside[i - i % 2] and inside[i - i % 2 + 1] for i in range(len(inside))]
+    bad = [(i, x, b) for i, (x, b, ok) in enumerate(zip(refp, _parts(np, back, cplx), inside))
            if ok and not abs(b - x) <= 4 * u * abs(x)]
-    if bad:
-        ctx.violate('inverse', f'get_in_units(set_in_units(x, {s!r}), {s!r}) after {_cfg_str(cfg)}: x = {bad[0][0]!r} '
-                    f'({form}) comes back as {bad[0][1]!r}', replay)
+    if bad and cplx:
+        i = bad[0][0] // 2
+        ctx.violate('inverse', f'get_in_units(set_in_units(z, {s!r}), {s!r}) after {_cfg_str(cfg)}: z = '
+                    f'{ref.ravel().tolist()[i]!r} ({form}) comes back as {back.ravel().tolist()[i]!r} (dtype {back.dtype}; '
+                    f'in between: {wa.ravel().tolist()[i]!r}, dtype {wa.dtype})', replay)
         return
-    got_fwd = wa.ravel().tolist()
+    if bad:
+        ctx.violate('inverse', f'get_in_units(set_in_units(x, {s!r}), {s!r}) after {_cfg_str(cfg)}: x = {bad[0][1]!r} '
+                    f'({form}) comes back as {bad[0][2]!r}', replay)
+        return
+    got_fwd = _parts(np, wa, cplx)
     # a second call after scribbling over the first result gives the first result again
     if isinstance(w, np.ndarray) and w.size and w.flags.writeable:
         first = wa.copy()
@@ -2349,7 +2457,7 @@ def _o_inverse(ctx, np, uc, cfg, s, xs, shape, form, vals=None):
     # forward: x times the factor
     if v is None:
         return
-    for x, g, ok in zip(ref.ravel().tolist(), got_fwd, inside):
+    for x, g, ok in zip(refp, got_fwd, inside):
         want = Fraction(x) * v
         tol = Fraction((e + 5.0) * 1.5 * u) * abs(want)
         if ok and not abs(Fraction(g) - want) <= tol:
